@@ -87,22 +87,24 @@ TEXT = {
 
 # ---- additions made after the independent bug-hunt rounds (DESIGN.md sections 5 and 9): input classes that were added to the generators
 _ADDED = {
-    'C01': ' Later additions: containers of numpy scalars and narrow numpy dtypes, complex values written by index into objects holding reals (and the reverse), complex values converted from another fixed-point object by six routes.',
-    'C02': ' Later additions: limits must be complex exactly while complex values are held; objects that are their own op_out / op_out_like target and their like= / template= / indexing derivations.',
+    'C01': ' Later additions: containers of numpy scalars and narrow numpy dtypes, complex values written by index into objects holding reals (and the reverse), complex values converted from another fixed-point object by six routes. Tiny floats (subnormals, smallest normals) whose scaled product is not representable.',
+    'C02': ' Later additions: limits must be complex exactly while complex values are held; objects that are their own op_out / op_out_like target and their like= / template= / indexing derivations. Scale / bias given with like=; floats at the limits of 54..63-bit results of core operands; NumPy functions fxpmath does not implement itself and mean / std / var return well-formed objects.',
     'C03': ' Later additions: wide words with negative n_frac; + - * delivered through out_like / out / numpy out= / call / config.op_out into a wrap register of a third format (any rounding, usually fewer fraction bits); sum / cumsum / max / min / dot accumulated into such registers, and reductions of a wrap operand with same sizing.',
-    'C04': ' Later additions: unary -,+,abs, like(), fxp_sum, callbacks given next to like= / template=, one complex boundary write per notification.',
+    'C04': ' Later additions: unary -,+,abs, like(), fxp_sum, callbacks given next to like= / template=, one complex boundary write per notification. Masked / fancy / empty-selection indexed writes; modes set through the mirror attributes.',
     'C06': ' Later additions: narrow numpy carriers, arrays in the capped case (asserted at the 64-bit word too), long-fraction doubles of both signs, a given n_frac up to the word limit or negative.',
+    'C07': ' Later additions: operands whose status record already carries overflow / underflow from earlier writes (result flags must be clean).',
     'C08': ' Later additions: numpy scalar / 0-d constants on either side, config.array_op_out / array_op_out_like targets through the numpy ufunc form (also with the constant on the left).',
-    'C09': ' Later additions: operand words up to 62 bits with a result word <=53.',
-    'C11': ' Later additions: numpy arrays of rendered strings (54..63-bit class), prefixes selected through the configuration, dotted binary strings fed back as raw values.',
+    'C09': ' Later additions: operand words up to 62 bits with a result word <=53. Python / numpy constants on either side and in-place forms of / // %.',
+    'C10': ' Later additions: resize given by n_int and n_frac.',
+    'C11': ' Later additions: numpy arrays of rendered strings (54..63-bit class), prefixes selected through the configuration, dotted binary strings fed back as raw values. The short prefixes \'b\' and \'0h\' parsed back (raw and value, dotted).',
     'C12': ' Later additions: a dtype spelling given together with a zero value.',
     'C13': ' Later additions: operands taken out of arrays by indexing or produced by a keep-mode shift (64+ bit words), numpy-typed masks on either side.',
     'C14': ' Later additions: numpy-typed shift counts.',
     'C15': ' Later additions: transpose axes / .T, keepdims, tuple axes, exchanged diagonal axes, clip with one limit / list / ndarray / fixed-point limits / numpy min= max= names / repr method, matmul through np.matmul and @ under every array_op_method.',
     'C16': ' Later additions: numpy scalars, 0-d arrays and ndarrays on either side, numpy comparison ufuncs.',
-    'C17': ' Later additions: numpy-scalar scale / bias, scale / bias next to like=, uint64 and fixed-point carriers, like() route, elements of scaled arrays, sums delivered into scaled out / out_like targets or taken with a scaled operand.',
-    'C18': ' Later additions: element-wise assignment of python integers into wide arrays (elements must stay python ints).',
-    'C20': ' Later additions: arrays returned by x(), get_val(), astype() are overwritten and the object must not change.',
+    'C17': ' Later additions: numpy-scalar scale / bias, scale / bias next to like=, uint64 and fixed-point carriers, like() route, elements of scaled arrays, sums delivered into scaled out / out_like targets or taken with a scaled operand. resize of a scaled object.',
+    'C18': ' Later additions: element-wise assignment of python integers into wide arrays (elements must stay python ints). Lists / tuples mixing numpy integer scalars with python integers.',
+    'C20': ' Later additions: arrays returned by x(), get_val(), astype() are overwritten and the object must not change. Write-through for any basic first index (columns, stepped / reversed / offset slices).',
 }
 for _k, _v in _ADDED.items():
     TEXT[_k]['level'] += _v
